@@ -296,7 +296,7 @@ Proof.
   apply sqrt_div_lt; [exact EF_R_pos|lra|lra|lra].
 Qed.
 
-Lemma decreasing_increasing_re : forall rest e0 y0, (0 < e0)%Q -> rows_pos rest ->
+Lemma decreasing_increasing_re : forall rest e0 (y0 : Q), (0 < e0)%Q -> rows_pos rest ->
   decreasing_fromb e0 rest = true -> increasing_from (node_x_R e0) (re_nodes_R rest).
 Proof.
   induction rest as [|[[e1 re1] im1] r IH]; intros e0 y0 H0 Hp H; [exact I|].
@@ -305,7 +305,7 @@ Proof.
   - apply node_x_lt; assumption.
   - apply (IH e1 re1 Hp1 Hp2 H2).
 Qed.
-Lemma decreasing_increasing_im : forall rest e0 y0, (0 < e0)%Q -> rows_pos rest ->
+Lemma decreasing_increasing_im : forall rest e0 (y0 : Q), (0 < e0)%Q -> rows_pos rest ->
   decreasing_fromb e0 rest = true -> increasing_from (node_x_R e0) (im_nodes_R rest).
 Proof.
   induction rest as [|[[e1 re1] im1] r IH]; intros e0 y0 H0 Hp H; [exact I|].
